@@ -351,6 +351,8 @@ impl<'a> GeneratorState<'a> {
             }
             if self.acc_in_use { self.sasm(PLA)?; }
             self.carry_flag_ok = false;
+            // N and Z are those of the last shifted byte (or of the PLA)
+            self.flags = FlagsState::Unknown;
             Ok(ExprType::Nothing)
         } else {
             unreachable!();
